@@ -237,12 +237,12 @@ func c12Scenario(c *choice.Ctx, rep *report.R) {
 	}
 	step("miss", rule == "forward", 60)
 	if rule == "forward" {
-		time.Sleep(2 * time.Second)
+		hsleep(2 * time.Second)
 		step("hit", false, 60)
-		time.Sleep(50 * time.Second) // into the last quarter: hit + background refresh
+		hsleep(50 * time.Second) // into the last quarter: hit + background refresh
 		step("hit+refresh", true, 60)
 		wait()
-		time.Sleep(2 * time.Second)
+		hsleep(2 * time.Second)
 		step("hit-after-refresh", false, 60)
 	}
 	sc.Close()
